@@ -11,11 +11,28 @@
 //!                                         ends on `is_char_boundary`;
 //!                                       * rendering every report with codespan-reporting (the way src/reporting.rs and
 //!                                         tests/common/mod.rs do) succeeds.
+//!   (c07 "text" "TypeName" [dir])     the same with the type name of the document given (the CLI takes it from the file name; it
+//!                                     becomes the class name, the include guard and the names of the .ui / header files);
+//!                                     `dir`: the document is parsed with a path inside unicode_ids::VIRTUAL_DIR, whose directory
+//!                                     module holds QML components with non-ASCII names (all derive QPushButton).  The type map
+//!                                     also holds the C++ classes of unicode_ids::foreign_classes (non-ASCII class, property,
+//!                                     signal, slot, method, enum and enumerator names).
+//!   (c07-twin "text" "TypeName" dir|nodir[-acceptance] "twin text" "TwinTypeName" (n "name" "twin name")…)
+//!                                     TWIN ORACLE (part of the tie): the totality oracle of `c07` on the document, and the same
+//!                                     document with the listed names replaced consistently by ASCII names of the same
+//!                                     upper/lower-case class must behave alike in every mode — syntax errors or none, built or
+//!                                     not, the same number of errors and warnings, the same messages (names mapped back;
+//!                                     `-acceptance`: messages not compared).  Identifiers are opaque to the translator.
 //!   (c07-cli generate|reject[-sub|-up] "text")   (-sub: the document in `sub/é dir/`, -up: above the working directory,
 //!                                     given by absolute path — the report names it relative to the working directory)
 //!                                     the REAL `qmluic generate-ui` binary built from /repo's working tree (release) on
 //!                                     `Main.qml` in a fresh directory under std::env::temp_dir(), 20 s timeout: the exit
 //!                                     status must be 0 or 1 (not 101 = panic, not a signal, not a timeout).
+//!   (c07-cli HOW "text" "File.qml" (file "Other.qml" "text")…)   the same with the document in `File.qml`, further files next
+//!                                     to it (QML components) and the classes of unicode_ids::foreign_classes passed as a second
+//!                                     `--foreign-types` file: exit status 0 or 1; status 0 iff `<stem>.ui` was written and, without
+//!                                     --no-dynamic-binding, `uisupport_<stem>.h` (names compared ignoring letter case: FileNameRules
+//!                                     lower-cases ASCII letters only); status 1 only with a report that names the file.
 //!   (c07-cli-gen generate|reject KIND N)   same, on a text generated here: KIND ∈ sum | objects | parens | array | ternary |
 //!                                     unary | member | block (N nesting levels) — deep inputs are tested ONLY this way
 //!                                     (finding F11: stack exhaustion; the in-process inputs keep nesting ≤ 60).
@@ -52,6 +69,7 @@ use std::panic::{catch_unwind, AssertUnwindSafe};
 use std::time::{Duration, Instant};
 
 mod trivia;
+mod unicode_ids;
 
 pub struct C07 {
     tm: TypeMap,
@@ -500,6 +518,44 @@ fn control_flow_stress() -> Vec<(String, String)> {
     out
 }
 
+/// (label, document): integer constant folding at the 64-bit (and 32-bit) boundaries — every binary integer operator × every
+/// pair of boundary operands (i64::MIN can only be written as an expression), the unary operators, in a binding; a division
+/// or remainder `MIN / -1` overflows although the divisor is not zero.
+fn int_boundary_stress() -> Vec<(String, String)> {
+    const OPERANDS: &[(&str, &str)] = &[
+        ("min", "(-9223372036854775807 - 1)"),
+        ("min+1", "(-9223372036854775807)"),
+        ("-2", "(-2)"),
+        ("-1", "(-1)"),
+        ("0", "0"),
+        ("1", "1"),
+        ("63", "63"),
+        ("64", "64"),
+        ("2^31", "2147483648"),
+        ("-2^31", "(-2147483648)"),
+        ("2^32", "4294967296"),
+        ("max", "9223372036854775807"),
+    ];
+    const OPS: &[(&str, &str)] = &[("add", "+"), ("sub", "-"), ("mul", "*"), ("div", "/"), ("rem", "%"), ("shl", "<<"), ("shr", ">>"), ("and", "&"), ("or", "|"), ("xor", "^"), ("le", "<="), ("gt", ">"), ("eq", "==")];
+    let mut out = vec![];
+    for (on, op) in OPS {
+        for (an, a) in OPERANDS {
+            for (bn, b) in OPERANDS {
+                let (prop, expr) = if matches!(*on, "le" | "gt" | "eq") { ("enabled", format!("{a} {op} {b}")) } else { ("minimumWidth", format!("{a} {op} {b}")) };
+                out.push((format!("int-boundary:{on}:{an}:{bn}"), format!("import qmluic.QtWidgets\nQWidget {{\n    id: root\n    {prop}: {expr}\n}}\n")));
+            }
+        }
+    }
+    for (an, a) in OPERANDS {
+        for (on, op) in [("neg", "-"), ("not", "~"), ("plus", "+")] {
+            out.push((format!("int-boundary:{on}:{an}"), format!("import qmluic.QtWidgets\nQWidget {{\n    id: root\n    minimumWidth: {op}{a}\n}}\n")));
+        }
+        // the same operand met by a dynamic value: nothing to fold, the constant goes to C++
+        out.push((format!("int-boundary:dyn:{an}"), format!("import qmluic.QtWidgets\nQWidget {{\n    id: root\n    QSpinBox {{ id: spin }}\n    minimumWidth: spin.value / {a} + spin.value % {a}\n    onWindowTitleChanged: spin.value = {a} / -1\n}}\n")));
+    }
+    out
+}
+
 fn extract_test_snippets(src: &str) -> Vec<String> {
     let mut out = vec![];
     let mut rest = src;
@@ -561,7 +617,19 @@ impl C07 {
                 }
             }
         }
-        C07 { tm: env::load_type_map_with(env::adversarial_classes()), bases, base_cache: Default::default() }
+        // the adversarially named classes, the classes with non-ASCII names (unicode_ids::foreign_classes) and a directory
+        // module of QML components with non-ASCII names (seen only by documents parsed with a path inside VIRTUAL_DIR)
+        let mut classes = env::adversarial_classes();
+        classes.extend(unicode_ids::foreign_classes());
+        let mut tm = env::load_type_map_with(classes);
+        let mut dir_module = qmluic::typemap::ModuleData::default();
+        for name in unicode_ids::virtual_components() {
+            let mut data = qmluic::typemap::QmlComponentData::with_super(name, "QPushButton");
+            data.import_module(qmluic::typemap::ModuleIdBuf::Named("qmluic.QtWidgets".to_owned()));
+            dir_module.push_qml_component(data);
+        }
+        tm.insert_module(qmluic::typemap::ModuleIdBuf::Directory(unicode_ids::VIRTUAL_DIR.into()), dir_module);
+        C07 { tm, bases, base_cache: Default::default() }
     }
 }
 
@@ -914,11 +982,41 @@ fn render_all(doc: &UiDocument, ds: impl IntoIterator<Item = reporting::Reportab
     Ok(n)
 }
 
-fn check_mode(tm: &TypeMap, src: &str, mode: Mode) -> Result<ModeStats, String> {
+/// How the document is named: the type name (the CLI takes it from the file name) and whether it is parsed with a path
+/// inside unicode_ids::VIRTUAL_DIR (then the QML components of that directory module are visible).
+#[derive(Clone, Debug)]
+struct DocName {
+    type_name: String,
+    in_virtual_dir: bool,
+}
+
+impl Default for DocName {
+    fn default() -> Self {
+        DocName { type_name: "MyType".to_owned(), in_virtual_dir: false }
+    }
+}
+
+impl DocName {
+    /// from the optional trailing arguments `"TypeName"` and `dir` of a request
+    fn from_args(args: &[Sexp]) -> DocName {
+        DocName {
+            type_name: args.first().and_then(|a| a.as_str()).unwrap_or("MyType").to_owned(),
+            in_virtual_dir: args.get(1).and_then(|a| a.as_atom()) == Some("dir"),
+        }
+    }
+
+    fn path(&self) -> Option<camino::Utf8PathBuf> {
+        // a file name must not hold `/` or NUL; the type name proper is passed separately
+        let file: String = self.type_name.chars().map(|c| if c == '/' || c == '\0' { '_' } else { c }).collect();
+        self.in_virtual_dir.then(|| camino::Utf8PathBuf::from(format!("{}/{file}.qml", unicode_ids::VIRTUAL_DIR)))
+    }
+}
+
+fn check_mode_as(tm: &TypeMap, src: &str, name: &DocName, mode: Mode) -> Result<ModeStats, String> {
     let mut st = ModeStats::default();
     // tree-sitter (third-party GLR parser with error recovery) runs inside `UiDocument::parse`
     crate::set_phase("tree-sitter-parse");
-    let doc = UiDocument::parse(src, "MyType", None);
+    let doc = UiDocument::parse(src, name.type_name.as_str(), name.path());
     crate::set_phase("qmluic");
     if doc.source() != src {
         return Err("document source differs from the input".into());
@@ -1025,9 +1123,13 @@ fn run_all_modes(tm: &TypeMap, src: &str) -> Result<Vec<ModeStats>, (String, &'s
 }
 
 fn run_modes(tm: &TypeMap, src: &str, modes: &[Mode]) -> Result<Vec<ModeStats>, (String, &'static str, bool)> {
+    run_modes_as(tm, src, &DocName::default(), modes)
+}
+
+fn run_modes_as(tm: &TypeMap, src: &str, name: &DocName, modes: &[Mode]) -> Result<Vec<ModeStats>, (String, &'static str, bool)> {
     let mut per_mode = vec![];
     for &mode in modes {
-        match catch_unwind(AssertUnwindSafe(|| check_mode(tm, src, mode))) {
+        match catch_unwind(AssertUnwindSafe(|| check_mode_as(tm, src, name, mode))) {
             Ok(Ok(s)) => per_mode.push(s),
             Ok(Err(what)) => return Err((what, mode.name(), false)),
             Err(e) => return Err((panic_text(e), mode.name(), true)),
@@ -1421,22 +1523,69 @@ fn run_cli(src: &str, reject: bool) -> Sexp {
 }
 
 fn run_cli_in(src: &str, reject: bool, layout: CliLayout) -> Sexp {
+    run_cli_job(src, reject, layout, &CliJob { main_name: "Main.qml".to_owned(), extra_files: vec![], foreign: false })
+}
+
+/// What the CLI run is given beyond the text: the file name of the document (the CLI derives the type name, the `.ui` name
+/// and the header name from it), further files written next to it (QML components), and whether the metatypes of
+/// unicode_ids::foreign_classes are passed with a second `--foreign-types`.
+struct CliJob {
+    main_name: String,
+    extra_files: Vec<(String, String)>,
+    foreign: bool,
+}
+
+/// `Name.qml` → `Name` (what camino's file_stem gives for the names used here)
+fn qml_stem(file_name: &str) -> &str {
+    match file_name.char_indices().rev().find(|(_, c)| *c == '.') {
+        Some((i, _)) if i > 0 => &file_name[..i],
+        _ => file_name,
+    }
+}
+
+/// Is there a file in `dir` whose name is `expected` up to (Unicode) letter case?  (FileNameRules lower-cases ASCII letters
+/// only; the oracle does not depend on which letters a lower-casing touches.)
+fn has_file_ignoring_case(dir: &std::path::Path, expected: &str) -> bool {
+    let want = expected.to_lowercase();
+    std::fs::read_dir(dir).map(|d| d.flatten().any(|e| e.file_name().to_string_lossy().to_lowercase() == want)).unwrap_or(false)
+}
+
+fn run_cli_job(src: &str, reject: bool, layout: CliLayout, job: &CliJob) -> Sexp {
     let bin = env::cli_binary();
+    let main_name = job.main_name.as_str();
+    if main_name.is_empty() || main_name.contains('/') || main_name.contains('\0') || main_name.len() > 250 {
+        return node("bad-request", vec![st("file name")]);
+    }
     let dir = match tempfile::Builder::new().prefix("qv-c07-").tempdir_in(std::env::temp_dir()) {
         Ok(d) => d,
         Err(e) => return node("fail", vec![st("tempdir"), st(e.to_string())]),
     };
     let (src_dir, cwd, arg) = match layout {
-        CliLayout::Flat => (dir.path().to_owned(), dir.path().to_owned(), "Main.qml".to_owned()),
-        CliLayout::Sub => (dir.path().join("sub/é dir"), dir.path().to_owned(), "sub/é dir/Main.qml".to_owned()),
-        CliLayout::Up => (dir.path().join("src"), dir.path().join("cwd/deep"), dir.path().join("src/Main.qml").to_string_lossy().into_owned()),
+        // `./` in front: a file name may start with `-`
+        CliLayout::Flat => (dir.path().to_owned(), dir.path().to_owned(), if main_name == "Main.qml" { main_name.to_owned() } else { format!("./{main_name}") }),
+        CliLayout::Sub => (dir.path().join("sub/é dir"), dir.path().to_owned(), format!("sub/é dir/{main_name}")),
+        CliLayout::Up => (dir.path().join("src"), dir.path().join("cwd/deep"), dir.path().join("src").join(main_name).to_string_lossy().into_owned()),
     };
     if let Err(e) = std::fs::create_dir_all(&src_dir).and_then(|_| std::fs::create_dir_all(&cwd)) {
         return node("fail", vec![st("mkdir"), st(e.to_string())]);
     }
-    let file = src_dir.join("Main.qml");
+    for (name, text) in &job.extra_files {
+        if name.is_empty() || name.contains('/') || name.contains('\0') || name == main_name {
+            return node("bad-request", vec![st("extra file name")]);
+        }
+        if let Err(e) = std::fs::write(src_dir.join(name), text) {
+            return node("fail", vec![st("write"), st(e.to_string())]);
+        }
+    }
+    let file = src_dir.join(main_name);
     if let Err(e) = std::fs::write(&file, src) {
         return node("fail", vec![st("write"), st(e.to_string())]);
+    }
+    let foreign_path = dir.path().join("qv-foreign-metatypes.json");
+    if job.foreign {
+        if let Err(e) = std::fs::write(&foreign_path, unicode_ids::foreign_metatypes_json()) {
+            return node("fail", vec![st("write"), st(e.to_string())]);
+        }
     }
     let mut cmd = std::process::Command::new(&bin);
     cmd.current_dir(&cwd)
@@ -1445,6 +1594,9 @@ fn run_cli_in(src: &str, reject: bool, layout: CliLayout) -> Sexp {
         .arg("generate-ui")
         .arg("--foreign-types")
         .arg(format!("{}/contrib/metatypes", env::REPO));
+    if job.foreign {
+        cmd.arg("--foreign-types").arg(&foreign_path);
+    }
     if reject {
         cmd.arg("--no-dynamic-binding");
     }
@@ -1476,7 +1628,9 @@ fn run_cli_in(src: &str, reject: bool, layout: CliLayout) -> Sexp {
         }
     };
     let stderr = std::fs::read(&err_path).map(|b| String::from_utf8_lossy(&b).into_owned()).unwrap_or_default();
-    let wrote_ui = src_dir.join("main.ui").exists();
+    let stem = qml_stem(main_name);
+    let wrote_ui = has_file_ignoring_case(&src_dir, &format!("{stem}.ui"));
+    let wrote_header = has_file_ignoring_case(&src_dir, &format!("uisupport_{stem}.h"));
     let Some(status) = status else {
         // where was the time spent?  Run the tree-sitter parse alone on a helper thread with the same budget
         // (the thread is abandoned if it does not finish: it cannot be interrupted)
@@ -1497,16 +1651,20 @@ fn run_cli_in(src: &str, reject: bool, layout: CliLayout) -> Sexp {
             if (c == 0) != wrote_ui {
                 return node("fail", vec![st("cli-exit-vs-output"), node("exit", vec![num(c)]), node("wrote-ui", vec![atom(wrote_ui.to_string())])]);
             }
+            // the support header is written with the form, and only when dynamic bindings are generated
+            if wrote_header != (c == 0 && !reject) {
+                return node("fail", vec![st("cli-exit-vs-header"), node("exit", vec![num(c)]), node("wrote-header", vec![atom(wrote_header.to_string())])]);
+            }
             if c == 1 && !stderr.contains("error") {
                 return node("fail", vec![st("cli-exit-1-without-report"), st(stderr.chars().take(300).collect::<String>())]);
             }
             // the report names the document relative to the working directory
             let shown = match layout {
-                CliLayout::Flat => "Main.qml",
-                CliLayout::Sub => "sub/é dir/Main.qml",
-                CliLayout::Up => "../../src/Main.qml",
+                CliLayout::Flat => main_name.to_owned(),
+                CliLayout::Sub => format!("sub/é dir/{main_name}"),
+                CliLayout::Up => format!("../../src/{main_name}"),
             };
-            if c == 1 && layout != CliLayout::Flat && !stderr.contains(shown) {
+            if c == 1 && (layout != CliLayout::Flat || main_name != "Main.qml") && !stderr.contains(&shown) {
                 return node("fail", vec![st("cli-report-does-not-name-the-document"), st(shown), st(stderr.chars().take(300).collect::<String>())]);
             }
             node("ok", vec![node("exit", vec![num(c)]), node("wrote-ui", vec![atom(wrote_ui.to_string())])])
@@ -1531,6 +1689,411 @@ fn run_cli_in(src: &str, reject: bool, layout: CliLayout) -> Sexp {
             )
         }
     }
+}
+
+// ---------------------------------------------------------------------------------------------- identifiers (uid)
+
+impl C07 {
+    /// `(c07-twin "text" "TypeName" dir|nodir "twin text" "TwinTypeName" (n "name" "twin name")…)`: the totality oracle on
+    /// the document in all three modes, and the TWIN ORACLE (part of the tie): the twin is the same document with the listed
+    /// names replaced consistently by ASCII names of the same upper/lower-case class; identifiers are opaque to the
+    /// translator, so in every mode both have syntax errors or neither has, both are built or neither is, and the error
+    /// and warning diagnostics are the same (kind + message multiset, the names mapped back).
+    fn answer_twin(&self, args: &[Sexp]) -> Sexp {
+        let (Some(text), Some(type_name), Some(dir), Some(twin_text), Some(twin_type)) =
+            (args.first().and_then(|a| a.as_str()), args.get(1).and_then(|a| a.as_str()), args.get(2).and_then(|a| a.as_atom()), args.get(3).and_then(|a| a.as_str()), args.get(4).and_then(|a| a.as_str()))
+        else {
+            return node("bad-request", vec![]);
+        };
+        let mut pairs: Vec<(&str, &str)> = vec![];
+        for a in &args[5..] {
+            match a.as_node() {
+                Some(("n", [r, t])) => pairs.push((r.as_str().unwrap_or(""), t.as_str().unwrap_or(""))),
+                _ => return node("bad-request", vec![]),
+            }
+        }
+        // longest twin name first: one twin name may be the tail of another
+        pairs.sort_by_key(|(_, t)| std::cmp::Reverse(t.len()));
+        pairs.retain(|(r, t)| r != t && !t.is_empty());
+        // `dir` / `nodir` [+ `-acceptance`: the messages are not compared (unicode_ids::twin_messages_differ_by_design)]
+        let in_virtual_dir = dir.starts_with("dir");
+        let acceptance_only = dir.ends_with("-acceptance");
+        let real = match run_modes_as(&self.tm, text, &DocName { type_name: type_name.to_owned(), in_virtual_dir }, &Mode::all()) {
+            Ok(m) => m,
+            Err((what, mode, true)) => return node("panic", vec![st(what), node("mode", vec![atom(mode)])]),
+            Err((what, mode, false)) => return node("fail", vec![st(what), node("mode", vec![atom(mode)])]),
+        };
+        let twin = match run_modes_as(&self.tm, twin_text, &DocName { type_name: twin_type.to_owned(), in_virtual_dir }, &Mode::all()) {
+            Ok(m) => m,
+            Err((what, mode, true)) => return node("panic", vec![st(what), node("mode", vec![atom(mode)]), atom("twin-document")]),
+            Err((what, mode, false)) => return node("fail", vec![st(what), node("mode", vec![atom(mode)]), atom("twin-document")]),
+        };
+        let map_back = |m: &str| {
+            let mut s = m.to_owned();
+            for (r, t) in &pairs {
+                s = s.replace(t, r);
+            }
+            s
+        };
+        for ((r, t), mode) in real.iter().zip(&twin).zip(Mode::all()) {
+            let mut what = vec![];
+            if (r.syntax_errors > 0) != (t.syntax_errors > 0) || r.built != t.built || r.errors != t.errors || r.warnings != t.warnings {
+                what.push(format!("document={} twin={}", summary(r), summary(t)));
+            } else if !acceptance_only {
+                let mut rest: Vec<String> = t.messages.iter().map(|m| map_back(m)).collect();
+                for x in &r.messages {
+                    match rest.iter().position(|y| y == x) {
+                        Some(i) => {
+                            rest.remove(i);
+                        }
+                        None => what.push(format!("-{x:?}")),
+                    }
+                }
+                for x in rest {
+                    what.push(format!("+{x:?}"));
+                }
+            }
+            if !what.is_empty() {
+                return node("fail", vec![st("the ASCII twin of the document behaves differently"), node("mode", vec![atom(mode.name())]), st(what.join(" "))]);
+            }
+        }
+        let g = &real[0];
+        node(
+            "ok",
+            vec![
+                node("syntax-errors", vec![num(g.syntax_errors)]),
+                node("built", real.iter().map(|s| atom(if s.built { "y" } else { "n" })).collect()),
+                node("errors", real.iter().map(|s| num(s.errors)).collect()),
+                node("warnings", vec![num(g.warnings)]),
+                atom("twin-equal"),
+            ],
+        )
+    }
+}
+
+/// Cases of the family `uid` (identifiers with non-ASCII letters; see c07/unicode_ids.rs).  `pool`: the documents of the
+/// mutation pool (origin, text) for the identifier-renaming mutation.
+fn uid_cases(seed: u64, scale: usize, pool: &[(&str, &str)]) -> Vec<Case> {
+    use unicode_ids as u;
+    let mut cases: Vec<Case> = vec![];
+    let uppers: Vec<&u::Ident> = u::POOL.iter().filter(|i| i.upper()).collect();
+    let core: Vec<&u::Ident> = u::POOL.iter().filter(|i| i.core).collect();
+    let shift = (seed % 1_000_003) as usize;
+    let twin_req = |r: &u::Built, t: &u::Built, pairs: &[(String, String)]| {
+        let mut v = vec![st(r.text.clone()), st(r.type_name.clone()), atom(if r.comps.is_empty() { "nodir" } else { "dir" }), st(t.text.clone()), st(t.type_name.clone())];
+        for (a, b) in pairs {
+            if a != b && !v[5..].iter().any(|x| x.as_node().map(|(_, xs)| xs[0].as_str() == Some(a.as_str())).unwrap_or(false)) {
+                v.push(node("n", vec![st(a.clone()), st(b.clone())]));
+            }
+        }
+        node("c07-twin", v)
+    };
+    let cli_req = |how: &str, b: &u::Built| {
+        let main = if b.type_name == "MyType" { "Main.qml".to_owned() } else { format!("{}.qml", b.type_name) };
+        let mut v = vec![atom(how), st(b.text.clone()), st(main)];
+        for c in &b.comps {
+            v.push(node("file", vec![st(format!("{c}.qml")), st(u::COMPONENT_SOURCE)]));
+        }
+        node("c07-cli", v)
+    };
+    let lab = |grid: &str, more: &[String]| {
+        let mut v = vec!["uid".to_owned(), format!("uid:grid:{grid}")];
+        v.extend(more.iter().cloned());
+        v
+    };
+    // documents fed to the mutation machinery afterwards: (text, type name)
+    let mut sample: Vec<(String, String)> = vec![];
+    let mut n_grid = 0usize;
+
+    // OBJECT documents: the full grid in-process (with the twin), every (name, feature) / (source, feature) / (source, name)
+    // pair of the reduced pool through the CLI
+    let comp_for = |k: usize, ident: &u::Ident| {
+        let c = uppers[k % uppers.len()];
+        if c.text == ident.text { uppers[(k + 1) % uppers.len()] } else { c }
+    };
+    for (si, source) in u::SOURCES.iter().enumerate() {
+        for (fi, feature) in u::FEATURES.iter().enumerate() {
+            for (ii, ident) in u::POOL.iter().enumerate() {
+                let (rn, tn) = u::names_of(ident, comp_for(si + fi + ii + shift, ident));
+                let (Some(r), Some(t)) = (u::object_doc(source, feature, &rn), u::object_doc(source, feature, &tn)) else {
+                    continue;
+                };
+                let labels = lab("object", &[format!("uid:pos:{source}"), format!("uid:feat:{feature}"), format!("uid:first:{}", ident.first)]);
+                let pairs = [(rn.n.clone(), tn.n.clone()), (rn.sib.clone(), tn.sib.clone()), (rn.comp.clone(), tn.comp.clone())];
+                cases.push(Case { kind: "oracle", labels, request: twin_req(&r, &t, &pairs) });
+                n_grid += 1;
+                if n_grid % 13 == shift % 13 {
+                    sample.push((r.text.clone(), r.type_name.clone()));
+                }
+            }
+        }
+    }
+    for (fi, feature) in u::FEATURES.iter().enumerate() {
+        for (ci, ident) in core.iter().filter(|i| !i.text.is_ascii()).enumerate() {
+            // the first source, from a rotating start, for which the combination exists
+            for d in 0..u::SOURCES.len() {
+                let source = u::SOURCES[(ci + fi + shift + d) % u::SOURCES.len()];
+                let (rn, _) = u::names_of(ident, comp_for(ci + fi + shift, ident));
+                if let Some(r) = u::object_doc(source, feature, &rn) {
+                    let mut labels = lab("object", &[format!("uid:pos:{source}"), format!("uid:feat:{feature}"), format!("uid:first:{}", ident.first)]);
+                    labels.push("cli".into());
+                    labels.push("cli:uid".into());
+                    let how = if (ci + fi + shift) % 5 == 0 { "reject" } else { "generate" };
+                    cases.push(Case { kind: "oracle", labels, request: cli_req(how, &r) });
+                    break;
+                }
+            }
+        }
+    }
+
+    // SYNTAX documents: every template × reduced pool + one more name (seed), in-process with the twin; every template
+    // once through the CLI
+    for (ti, t) in u::SYNTAX.iter().enumerate() {
+        let mut rng = Rng::fork(seed, "c07-uid-syntax", ti as u64);
+        let mut names: Vec<&u::Ident> = core.clone();
+        let others: Vec<&u::Ident> = u::POOL.iter().filter(|i| !i.core).collect();
+        names.push(*rng.pick(&others));
+        let cli_pick = rng.below(names.len());
+        for (k, ident) in names.iter().enumerate() {
+            let labels = lab("syntax", &[format!("uid:pos:{}", t.0), format!("uid:first:{}", ident.first)]);
+            let r = u::Built { text: u::syntax_doc(t, ident.text), type_name: "MyType".into(), comps: vec![] };
+            let tw = u::Built { text: u::syntax_doc(t, ident.twin), type_name: "MyType".into(), comps: vec![] };
+            let mut req = twin_req(&r, &tw, &[(ident.text.to_owned(), ident.twin.to_owned())]);
+            if u::twin_messages_differ_by_design(t.0) {
+                if let Sexp::List(v) = &mut req {
+                    v[3] = atom("nodir-acceptance");
+                }
+            }
+            cases.push(Case { kind: "oracle", labels: labels.clone(), request: req });
+            if k == cli_pick {
+                let mut l = labels;
+                l.push("cli".into());
+                l.push("cli:uid".into());
+                cases.push(Case { kind: "oracle", labels: l, request: cli_req(if ti % 4 == 3 { "reject" } else { "generate" }, &r) });
+                sample.push((r.text.clone(), r.type_name.clone()));
+            }
+        }
+    }
+
+    // FOREIGN documents: classes whose own names are non-ASCII; the object id from the lower-case half of the reduced pool
+    let lower_core: Vec<&u::Ident> = core.iter().copied().filter(|i| !i.upper()).collect();
+    for (ti, (pos, template)) in u::FOREIGN_TEMPLATES.iter().enumerate() {
+        for (k, ident) in lower_core.iter().enumerate() {
+            let root_is_foreign = (ti + k + shift) % 4 == 0;
+            let labels = lab("foreign", &[format!("uid:pos:foreign-{pos}"), format!("uid:first:{}", ident.first)]);
+            let r = u::Built { text: u::foreign_doc(template, &u::FOREIGN, ident.text, root_is_foreign), type_name: "MyType".into(), comps: vec![] };
+            let tw = u::Built { text: u::foreign_doc(template, &u::FOREIGN_TWIN, ident.twin, root_is_foreign), type_name: "MyType".into(), comps: vec![] };
+            let mut pairs = vec![(ident.text.to_owned(), ident.twin.to_owned())];
+            pairs.extend(foreign_pairs());
+            cases.push(Case { kind: "oracle", labels: labels.clone(), request: twin_req(&r, &tw, &pairs) });
+            if k == (ti + shift) % lower_core.len() {
+                let mut l = labels;
+                l.push("cli".into());
+                l.push("cli:uid".into());
+                cases.push(Case { kind: "oracle", labels: l, request: cli_req(if ti % 5 == 4 { "reject" } else { "generate" }, &r) });
+                sample.push((r.text.clone(), r.type_name.clone()));
+            }
+        }
+    }
+
+    // FILE-NAME documents: the type name (in-process) / the file name (CLI) from the pool and beyond
+    let mut type_names: Vec<(String, String, String)> = u::POOL.iter().map(|i| (i.text.to_owned(), i.twin.to_owned(), i.first.to_owned())).collect();
+    type_names.extend(u::ODD_TYPE_NAMES.iter().map(|(a, b, c)| ((*a).to_owned(), (*b).to_owned(), format!("odd-{c}"))));
+    for (ni, (name, twin, class)) in type_names.iter().enumerate() {
+        for (fi, feature) in u::FILE_FEATURES.iter().enumerate() {
+            let plain = u::Names { n: "button".into(), sib: "button2".into(), comp: "Etiquette".into() };
+            let mut r = u::object_doc("id-nested", feature, &plain).expect("file-name document");
+            let mut t = r.clone();
+            r.type_name = name.clone();
+            t.type_name = twin.clone();
+            let labels = lab("file-name", &["uid:pos:file-name".to_owned(), format!("uid:feat:{feature}"), format!("uid:first:{class}")]);
+            cases.push(Case { kind: "oracle", labels: labels.clone(), request: twin_req(&r, &t, &[]) });
+            if fi == (ni + shift) % u::FILE_FEATURES.len() {
+                let mut l = labels;
+                l.push("cli".into());
+                l.push("cli:uid".into());
+                cases.push(Case { kind: "oracle", labels: l.clone(), request: cli_req(if ni % 6 == 5 { "reject" } else { "generate" }, &r) });
+                if ni % 7 == 3 {
+                    // upper-case extension
+                    let mut req = cli_req("generate", &r);
+                    if let Sexp::List(v) = &mut req {
+                        v[3] = st(format!("{name}.QML"));
+                    }
+                    cases.push(Case { kind: "oracle", labels: l, request: req });
+                }
+            }
+        }
+    }
+
+    // … and the type name of the document used as an object type: a component that instantiates itself / two components
+    // that instantiate each other (the CLI registers every .qml file of the directory as a component named after the file)
+    for (k, (a, b)) in [("Étiquette", "Ébouton"), ("Foo", "Bar"), ("中", "𝒳label")].iter().enumerate() {
+        let labels = |what: &str| {
+            let mut l = lab("file-name", &["uid:pos:component-cycle".to_owned(), format!("uid:feat:{what}")]);
+            l.push("cli".into());
+            l.push("cli:uid".into());
+            l
+        };
+        let how = if k == 1 { "reject" } else { "generate" };
+        let own = |me: &str, other: &str, child: bool| {
+            if child {
+                format!("import qmluic.QtWidgets\nQDialog {{\n    QLineEdit {{ id: edit }}\n    {other} {{ id: inner; windowTitle: edit.text; onAccepted: {{}} }}\n}}\n")
+            } else {
+                format!("import qmluic.QtWidgets\n{other} {{\n    id: {}\n    QLineEdit {{ id: edit }}\n    windowTitle: edit.text\n    onAccepted: {{}}\n}}\n", if me == other { "root" } else { "top" })
+            }
+        };
+        cases.push(Case { kind: "oracle", labels: labels("self-root"), request: node("c07-cli", vec![atom(how), st(own(a, a, false)), st(format!("{a}.qml"))]) });
+        cases.push(Case { kind: "oracle", labels: labels("self-child"), request: node("c07-cli", vec![atom(how), st(own(a, a, true)), st(format!("{a}.qml"))]) });
+        cases.push(Case {
+            kind: "oracle",
+            labels: labels("mutual-root"),
+            request: node("c07-cli", vec![atom(how), st(own(a, b, false)), st(format!("{a}.qml")), node("file", vec![st(format!("{b}.qml")), st(own(b, a, false))])]),
+        });
+        cases.push(Case {
+            kind: "oracle",
+            labels: labels("mutual-child"),
+            request: node("c07-cli", vec![atom(how), st(own(a, b, true)), st(format!("{a}.qml")), node("file", vec![st(format!("{b}.qml")), st(own(b, a, true))])]),
+        });
+    }
+
+    // finding F90: names XML 1.0 cannot carry (see unicode_ids::f90_cases: only once the finding is listed)
+    if u::f90_cases() {
+        for (what, text, type_name, dir) in u::f90_documents() {
+            let mut v = vec![st(text), st(type_name)];
+            if dir {
+                v.push(atom("dir"));
+            }
+            cases.push(Case { kind: "oracle", labels: lab("f90", &["uid:f90-not-xml-name".to_owned(), format!("uid:pos:f90-{what}")]), request: node("c07", v) });
+        }
+    }
+
+    // MULTI documents: several subjects and syntax members in one document (random triples and more)
+    for k in 0..300 * scale {
+        let mut rng = Rng::fork(seed, "c07-uid-multi", k as u64);
+        let (more, r, t, pairs) = u::multi_doc(&mut rng);
+        let labels = lab("multi", &more);
+        cases.push(Case { kind: "oracle", labels: labels.clone(), request: twin_req(&r, &t, &pairs) });
+        if k < 24 * scale.min(10) {
+            let mut l = labels;
+            l.push("cli".into());
+            l.push("cli:uid".into());
+            cases.push(Case { kind: "oracle", labels: l, request: cli_req(if k % 6 == 5 { "reject" } else { "generate" }, &r) });
+        }
+        if k % 10 == 0 {
+            sample.push((r.text.clone(), r.type_name.clone()));
+        }
+    }
+
+    // … a sample of all of these through the mutation machinery (token-level mutations, utf8-dense, truncation) and with a
+    // comment at every token boundary
+    for k in 0..360 * scale {
+        let mut rng = Rng::fork(seed, "c07-uid-mut", k as u64);
+        let (text, type_name) = rng.pick(&sample).clone();
+        let (label, mutated) = match k % 6 {
+            5 => {
+                let mut p = rng.below(text.len() + 1);
+                while !text.is_char_boundary(p) {
+                    p -= 1;
+                }
+                ("truncation", text[..p].to_owned())
+            }
+            4 => ("utf8-dense", densify(&mut rng, &text)),
+            _ => mutate(&mut rng, &text),
+        };
+        if mutated.len() > 64 * 1024 {
+            continue;
+        }
+        let labels = vec!["uid".to_owned(), "uid:grid:mutated".to_owned(), "mutation".to_owned(), format!("mut:{label}"), "of:uid".to_owned()];
+        if k < 16 * scale.min(10) {
+            let mut l = labels.clone();
+            l.push("cli".into());
+            l.push("cli:uid".into());
+            cases.push(Case { kind: "oracle", labels: l, request: node("c07-cli", vec![atom("generate"), st(mutated.clone()), st("Étiquette.qml")]) });
+        }
+        cases.push(Case { kind: "oracle", labels, request: node("c07", vec![st(mutated), st(type_name)]) });
+    }
+    {
+        let mut k = 0;
+        for (i, (text, _)) in sample.iter().enumerate() {
+            if k >= 40 * scale {
+                break;
+            }
+            let doc = UiDocument::parse(text.as_str(), "MyType", None);
+            if trivia::boundaries(&doc).is_some() {
+                let mut rng = Rng::fork(seed, "c07-uid-trivia", i as u64);
+                let tr = if k % 2 == 0 { *rng.pick(trivia::INLINE) } else { *rng.pick(trivia::WITH_NEWLINE) };
+                cases.push(Case {
+                    kind: "oracle",
+                    labels: vec!["uid".to_owned(), "uid:grid:trivia".to_owned(), "trivia".to_owned(), "trivia:sat".to_owned(), "of:uid".to_owned()],
+                    request: node("c07-trivia-sat", vec![st(text.clone()), st(tr)]),
+                });
+                k += 1;
+            }
+        }
+    }
+
+    // the identifier-renaming mutation on the documents of the pool (examples, test snippets, generated, stress): an object
+    // id / any identifier / one occurrence gets a non-ASCII letter of 2, 3 or 4 bytes; half of them are mutated once more
+    let examples: Vec<&(&str, &str)> = pool.iter().filter(|(o, _)| *o == "example").collect();
+    for k in 0..600 * scale {
+        let mut rng = Rng::fork(seed, "c07-uid-rename", k as u64);
+        let (origin, base) = if k % 3 == 0 && !examples.is_empty() { **rng.pick(&examples) } else { pool[rng.below(pool.len())] };
+        let Some((label, more, mut text)) = u::rename_identifier(&mut rng, base) else {
+            continue;
+        };
+        // more than one identifier
+        for _ in 0..rng.below(3) {
+            if let Some((_, _, again)) = u::rename_identifier(&mut rng, &text) {
+                text = again;
+            }
+        }
+        if k % 2 == 1 {
+            text = mutate(&mut rng, &text).1;
+        }
+        if text.len() > 64 * 1024 {
+            continue;
+        }
+        let mut labels = vec!["uid".to_owned(), "uid:grid:renamed".to_owned(), "mutation".to_owned(), format!("mut:{label}"), format!("of:{origin}")];
+        labels.extend(more);
+        if k < 36 * scale.min(10) {
+            let mut l = labels.clone();
+            l.push("cli".into());
+            l.push("cli:uid".into());
+            cases.push(Case { kind: "oracle", labels: l, request: node("c07-cli", vec![atom(if k % 6 == 5 { "reject" } else { "generate" }), st(text.clone()), st(if k % 2 == 0 { "Main.qml" } else { "Étiquette.qml" })]) });
+        }
+        let type_name = if k % 4 == 3 { u::POOL[k % u::POOL.len()].text } else { "MyType" };
+        cases.push(Case { kind: "oracle", labels, request: node("c07", vec![st(text), st(type_name)]) });
+    }
+    cases
+}
+
+/// (real, twin) of every name of the foreign classes, for mapping the twin's messages back
+fn foreign_pairs() -> Vec<(String, String)> {
+    let (f, t) = (&unicode_ids::FOREIGN, &unicode_ids::FOREIGN_TWIN);
+    let mut v: Vec<(&str, &str)> = vec![
+        (f.widget, t.widget),
+        (f.int_prop, t.int_prop),
+        (f.str_prop, t.str_prop),
+        (f.bool_prop, t.bool_prop),
+        (f.font_prop, t.font_prop),
+        (f.upper_font_prop, t.upper_font_prop),
+        (f.ascii_first_prop, t.ascii_first_prop),
+        (f.enum_prop, t.enum_prop),
+        (f.enum_name, t.enum_name),
+        (f.signal, t.signal),
+        (f.lower_signal, t.lower_signal),
+        (f.slot, t.slot),
+        (f.method_int, t.method_int),
+        (f.method_str, t.method_str),
+        (f.q_label, t.q_label),
+        (f.k_button, t.k_button),
+        (f.lower_widget, t.lower_widget),
+        (f.q_cjk, t.q_cjk),
+    ];
+    for k in 0..3 {
+        v.push((f.enum_values[k], t.enum_values[k]));
+    }
+    v.into_iter().map(|(a, b)| (a.to_owned(), b.to_owned())).collect()
 }
 
 impl Stream for C07 {
@@ -1563,6 +2126,12 @@ impl Stream for C07 {
         stress.extend(control_flow_stress());
         for (name, text) in &stress {
             push(vec!["stress".into(), format!("stress:{name}")], text.clone());
+        }
+        // … integer folding at the boundaries (not part of the mutation / trivia pool: 1 800 near-identical documents)
+        let int_boundary = int_boundary_stress();
+        for (name, text) in &int_boundary {
+            let mut it = name.split(':');
+            push(vec!["stress".into(), "stress:int-boundary".into(), format!("int-boundary:{}", it.nth(1).unwrap_or(""))], text.clone());
         }
         // (b) token-level mutations of examples, test snippets, generated and stress documents
         let mut pool: Vec<(&str, &str)> = vec![];
@@ -1705,6 +2274,10 @@ impl Stream for C07 {
                 cli(vec!["cli".into(), "cli:stress-up".into()], node("c07-cli", vec![atom("reject-up"), st(text.clone())]));
             }
         }
+        // … every integer operator on (i64::MIN, -1) and (i64::MAX, i64::MAX)
+        for (name, text) in int_boundary.iter().filter(|(n, _)| n.ends_with(":min:-1") || n.ends_with(":max:max") || n.ends_with("dyn:min")) {
+            cli(vec!["cli".into(), "cli:stress".into(), "stress:int-boundary".into(), format!("stress:{name}")], node("c07-cli", vec![atom("generate"), st(text.clone())]));
+        }
         // … and the control-flow stress documents with a comment at a random token boundary / at all of them
         for (i, (name, text)) in stress.iter().enumerate().filter(|(_, (n, _))| n.starts_with("switch-") || n.starts_with("if-chain-1")) {
             let doc = UiDocument::parse(text.as_str(), "MyType", None);
@@ -1732,6 +2305,8 @@ impl Stream for C07 {
                 cli(vec!["cli".into(), "cli:mutation".into(), format!("mut:{label}")], node("c07-cli", vec![atom("generate"), st(text)]));
             }
         }
+        // (f) identifiers with non-ASCII letters
+        cases.extend(uid_cases(seed, scale, &pool));
         cases
     }
 
@@ -1740,9 +2315,10 @@ impl Stream for C07 {
         match tag {
             "c07" => {
                 let src = args[0].as_str().expect("text");
+                let name = DocName::from_args(&args[1..]);
                 let mut per_mode = vec![];
                 for mode in Mode::all() {
-                    match catch_unwind(AssertUnwindSafe(|| check_mode(&self.tm, src, mode))) {
+                    match catch_unwind(AssertUnwindSafe(|| check_mode_as(&self.tm, src, &name, mode))) {
                         Ok(Ok(s)) => per_mode.push(s),
                         Ok(Err(what)) => return node("fail", vec![st(what), node("mode", vec![atom(mode.name())])]),
                         Err(e) => return node("panic", vec![st(panic_text(e)), node("mode", vec![atom(mode.name())])]),
@@ -1766,6 +2342,7 @@ impl Stream for C07 {
                     ],
                 )
             }
+            "c07-twin" => self.answer_twin(args),
             "c07-trivia" => self.answer_trivia(args[0].as_str().expect("text"), args[1].as_usize().expect("pos"), args[2].as_str().expect("trivia")),
             "c07-trivia-each" => self.answer_trivia_each(args[0].as_str().expect("text"), args[1].as_usize().expect("seed") as u64),
             "c07-trivia-sat" => self.answer_trivia_sat(args[0].as_str().expect("text"), args[1].as_str().expect("trivia")),
@@ -1780,7 +2357,21 @@ impl Stream for C07 {
                 let how = args[0].as_atom().unwrap_or("generate");
                 let reject = how.starts_with("reject");
                 let layout = if how.ends_with("-sub") { CliLayout::Sub } else if how.ends_with("-up") { CliLayout::Up } else { CliLayout::Flat };
-                run_cli_in(args[1].as_str().expect("text"), reject, layout)
+                match args.get(2).and_then(|a| a.as_str()) {
+                    None => run_cli_in(args[1].as_str().expect("text"), reject, layout),
+                    // (c07-cli HOW "text" "File.qml" (file "Other.qml" "text")…): named document, component files next to
+                    // it, the classes with non-ASCII names as a second metatypes file
+                    Some(main_name) => {
+                        let mut extra_files = vec![];
+                        for a in &args[3..] {
+                            match a.as_node() {
+                                Some(("file", [n, t])) => extra_files.push((n.as_str().expect("file name").to_owned(), t.as_str().expect("file text").to_owned())),
+                                _ => return node("bad-request", vec![]),
+                            }
+                        }
+                        run_cli_job(args[1].as_str().expect("text"), reject, layout, &CliJob { main_name: main_name.to_owned(), extra_files, foreign: true })
+                    }
+                }
             }
             "c07-cli-gen" => {
                 let reject = args[0].as_atom() == Some("reject");
